@@ -50,8 +50,12 @@ def _collapse_invariants(
     if invariants_dunder in namespace:
         invariants.extend(namespace[invariants_dunder])
 
-    # Change the final invariants in the namespace
-    if invariants:
+    # Change the final invariants in the namespace.
+    #
+    # The class must own its lists even if they are empty: otherwise it would find the list of a base class
+    # through the attribute look-up, share it with the base and all its other sub-classes, and a subsequent
+    # invariant decorator on the class would append the invariant to all of them.
+    if invariants or any(hasattr(base, "__invariants__") for base in bases):
         namespace[invariants_dunder] = invariants
 
     # endregion
